@@ -24,7 +24,6 @@ Variable doc : xdoc.
 Hypothesis Hinv : DocInv doc.
 Hypothesis Hshape : SpecShape doc.
 Hypothesis Hnames : NamesOk doc.
-Hypothesis Hparents : ParentsOk doc.
 Variable ns : list (option str * str).
 Hypothesis no_default : ns_lookup ns None = None.
 
@@ -437,7 +436,7 @@ Proof.
       destruct (eval_args doc args n c) as [[vs|e| |] c1] eqn:Eargs; cbn [rrel] in Hag.
       * destruct Hag as [-> [svs [Esvs Hvs]]]. rewrite Esvs.
         pose proof (eval_args_len doc args n c vs c Eargs) as Hlen.
-        pose proof (call_agrees doc Hinv Hshape Hnames Hparents ns name vs svs n c no_default Hc Tn Hvs S1) as Hcall.
+        pose proof (call_agrees doc Hinv Hshape Hnames ns name vs svs n c no_default Hc Tn Hvs S1) as Hcall.
         assert (Hnz : forall i v, nth_error vs i = Some v -> XPathRefineFn.fn_str_param name i = true -> not_negzero v).
         { intros i v Hi Hp. apply (args_nz_values doc name args 0 n c vs c S3 Eargs i v Hi). exact Hp. }
         specialize (Hcall Hnz). rewrite Hlen in Hcall.
@@ -506,7 +505,7 @@ Proof.
     intros a t preds Hpreds Hsup n c Tn Hc. cbn [sup_step] in Hsup. apply andb_split in Hsup. destruct Hsup as [Hsup S3].
     apply andb_split in Hsup. destruct Hsup as [S1 S2].
     rewrite eval_step_test, s_step_test, Hc.
-    destruct (tested_sorted doc Hinv Hshape Hnames Hparents ns a t n no_default Tn S1 S2) as [r [cands [Er [Hsorted [Ec Eord]]]]].
+    destruct (tested_sorted doc Hinv Hshape Hnames ns a t n no_default Tn S1 S2) as [r [cands [Er [Hsorted [Ec Eord]]]]].
     rewrite Er, Ec, Eord. destruct (Hpreds S3) as [_ Hpr].
     apply (rrel_weaken (predrel (axis_sort doc a r)) steprel).
     + intros x xs [-> Hs]. split; [reflexivity|apply (subl_T doc x _ Hs Hsorted)].
@@ -514,7 +513,7 @@ Proof.
   - (* StepCurrent *)
     intros _ n c Tn Hc. rewrite eval_step_current, s_step_current'. apply rrel_ret. split; [reflexivity|constructor; [exact Tn|constructor]].
   - (* StepParent *)
-    intros _ n c Tn Hc. rewrite eval_step_parent, s_step_parent', (spec_parent doc Hinv Hshape Hparents n Tn). apply rrel_ret.
+    intros _ n c Tn Hc. rewrite eval_step_parent, s_step_parent', (spec_parent doc Hinv Hshape n Tn). apply rrel_ret.
     destruct (parent_node doc n) as [p|] eqn:Ep; cbn [opt_list option_map].
     + split; [reflexivity|]. constructor; [|constructor]. apply (T_parent_T doc Hinv Hshape n p Tn Ep).
     + split; [reflexivity|constructor].
